@@ -667,3 +667,13 @@ Proof. apply (round_grid_modes_code_agree 3). lia. Qed.
 Lemma round_mode4_code_agree thr ph per d : i32 thr -> i32 ph -> i32 per -> -2147483520 <= d <= 2147483520 ->
   sk_rs_round false 4 thr ph per d = Some (ft_round_up_to_grid 0 d).
 Proof. apply (round_grid_modes_code_agree 4). lia. Qed.
+
+(* ---------- MIAP[1] control-value cut-in decision ---------- *)
+Lemma miap_cutin_eq c o k : i32 c -> i32 o -> -2147483647 <= c - o <= 2147483647 ->
+  sk_miap_cutin c o k = ft_miap_cutin c o k.
+Proof.
+  intros Hc Ho Hd. unfold sk_miap_cutin, ft_miap_cutin. cbv zeta.
+  rewrite (wrap_s32_id (c - o)) by (unfold i32; lia).
+  rewrite (wrap_s32_id (Z.abs (c - o))) by (unfold i32; lia).
+  reflexivity.
+Qed.
